@@ -1,4 +1,5 @@
 pub mod cfg;
+pub mod enumc;
 pub mod explore;
 pub mod mockpg;
 pub mod props;
